@@ -56,7 +56,7 @@ def link_trees(draw, max_nodes=10, max_depth=3):
             other_dirs = [d for d in dirs if d != '' and not (parent == d or parent.startswith(d + '/'))]
             if other_dirs:
                 kinds += ['dir', 'dir', 'dir']
-            kinds += ['anc']
+            kinds += ['anc'] if len(kinds) <= 2 else []
             if links:
                 kinds += ['link']
             lk = draw(st.sampled_from(kinds))
@@ -111,7 +111,7 @@ def _depths(force_max):
 
 
 def rec_opts(force_max):
-    return st.none() | _depths(force_max) | _depths(force_max) | _depths(force_max)
+    return _depths(force_max) | _depths(force_max) | _depths(force_max) | st.none()
 
 
 _GLOBS = {
@@ -161,7 +161,7 @@ def _guard(type_name, m):
 def file_matchers(depth, force_max):
     """depth = remaining nesting budget"""
     contents = st.builds(lambda tm: {'k': 'contents', 'tm': tm}, _text_matchers)
-    leaves = [_types, _types, _name_matchers(), _name_matchers(), _consts,
+    leaves = [_types, _types, st.just({'k': 'type', 'v': 'symlink'}), _name_matchers(), _name_matchers(), _consts,
               st.builds(lambda c: _guard('file', c), contents),
               contents]  # unguarded: HARD_ERROR on non-regular files is documented
     if depth <= 0:
@@ -185,7 +185,7 @@ def file_matchers(depth, force_max):
 def prune_matchers(depth, force_max):
     """pruning matchers are only applied to directories: name tests, constants, nested dir-contents"""
     base = st.one_of(_name_matchers(), _name_matchers(), _consts, _types,
-                     st.builds(lambda m: {'k': 'dircontents', 'rec': None, 'm': m},
+                     st.builds(lambda rec, m: {'k': 'dircontents', 'rec': rec, 'm': m}, rec_opts(force_max),
                                st.deferred(lambda: files_matchers(0, force_max))))
     return st.one_of(base, base, st.builds(lambda x: {'k': 'not', 'x': x}, base),
                      st.builds(lambda a, b: {'k': 'or', 'xs': [a, b]}, base, base),
@@ -461,7 +461,7 @@ def _draw_entry(draw, depth, state, p_valid):
     else:
         shape = draw(st.sampled_from(['file', 'file=', 'file+=', 'dir', 'dir=', 'dir+=']))
         pool = draw(st.sampled_from(['simple'] * 6 + ['nested'] * 3 + ['odd'] * 3 + ['forbidden'] * 3 +
-                                    ['dotdot'] * 2 + ['pathsep']))
+                                    ['dotdot'] * 2 + ['pathsep'] * draw(st.sampled_from([0, 0, 1]))))
         name = draw(st.sampled_from({'simple': SIMPLE, 'nested': NESTED, 'odd': ODD, 'forbidden': FORBIDDEN,
                                      'dotdot': DOTDOT_SUBSTRING, 'pathsep': PATHSEP}[pool]))
     t = 'file' if shape.startswith('file') else 'dir'
